@@ -226,7 +226,9 @@ pub fn execute(case: &Case) -> Result<Tl, String> {
         stamp::set(k);
         emit(&env, kind, 0, ev);
       }
-      conv(probe.recs().into_iter().map(|r| (r.step, r.ev)).collect())
+      let r = conv(probe.recs().into_iter().map(|r| (r.step, r.ev)).collect());
+      env.teardown();
+      r
     } else {
       use crate::local::*;
       let env = Env::new(1);
@@ -238,7 +240,9 @@ pub fn execute(case: &Case) -> Result<Tl, String> {
         stamp::set(k);
         emit(&env, kind, 0, ev);
       }
-      conv(probe.recs().into_iter().map(|r| (r.step, r.ev)).collect())
+      let r = conv(probe.recs().into_iter().map(|r| (r.step, r.ev)).collect());
+      env.teardown();
+      r
     }
   })
 }
